@@ -591,7 +591,7 @@ func main() {
 		"two ADJACENT defer statements (1/3 of the defer closures are followed directly by another one) / recover() directly / recover() one call deeper (must yield nil); oracle = the same source compiled by go1.23 (event trace, result, escaping panic value). "+
 		"Non-trivial: at least one panic is raised and at least one deferred call runs; distinct by SHA-256 of the source. "+
 		"While finding C07-1 (a panic raised and recovered inside a deferred call swallows the outer panic) is present, its exact input is replayed first and the generator lets no deferred call (transitively) install defers.")
-	wd := vh.NewWatchdog(rep, 60*time.Second)
+	wd := vh.NewWatchdog(rep, 180*time.Second)
 	n, perShard := 500, 120
 	if a.Thorough() {
 		// 12000 programs / 120 per shard = 100 case files (~11 s each on the loaded machine) and a 9 min harness run;
